@@ -79,7 +79,12 @@ def one_pair(ctx: Ctx, pid: str, config: str, w0, w1, rng) -> dict:
     out = {"pid": pid, "config": config, "files0": files0, "files1": files1, "ops": ops, "ref": ref, "first": first,
            "cold": cold, "faults": []}
 
-    def follow_up(tag: str, crash_at: int = -1, fail_ops=None) -> dict:
+    import threading
+    tree_lock = threading.Lock()
+
+    def follow_up(tag: str, crash_at: int = -1, fail_ops=None, revert: bool = False) -> dict:
+        if revert:
+            return follow_up_revert(tag, crash_at)
         cdir = fresh_cache(tag)
         r1 = B.run_mypy(root, cdir, args, crash_at=crash_at, fail_ops=fail_ops, scratch=base)
         rec = {"crash_at": crash_at, "fail_ops": fail_ops or [], "killed": bool(r1.get("killed"))}
@@ -96,9 +101,40 @@ def one_pair(ctx: Ctx, pid: str, config: str, w0, w1, rng) -> dict:
         rec["rechecked_after"] = B.user_modules(r2.get("rechecked"))
         return rec
 
+    def follow_up_revert(tag: str, crash_at: int) -> dict:
+        """Kill right after a data write, then the edit is undone before the next run: the old meta matches the
+        old source again, but the data record is the new one — only the data_mtime tie protects the next run.
+        Uses a private copy of the tree (the shared one must keep the edited files)."""
+        cdir = fresh_cache(tag)
+        r1 = B.run_mypy(root, cdir, args, crash_at=crash_at, scratch=base)
+        root2 = os.path.join(base, f"src-{tag}")
+        shutil.rmtree(root2, ignore_errors=True)
+        os.makedirs(root2)
+        mm = OP_RE.match(ops[crash_at - 1])
+        keep = (mm.group(2) + ".py") if mm else ""          # the module whose data record was just written
+        for pth, text in files0.items():
+            fp = os.path.join(root2, pth)
+            os.makedirs(os.path.dirname(fp), exist_ok=True)
+            # every other module gets a (harmless) content change, so that it is re-analysed against the
+            # cached data of the reverted module
+            if pth != keep and pth.endswith(".py") and text.strip():
+                text = text + "# touched\n"
+            open(fp, "w").write(text)
+            os.utime(fp, (1_700_000_006, 1_700_000_006))
+        # same relative layout ⇒ same cache entries; run from the reverted copy
+        r2 = B.run_mypy(root2, cdir, args, scratch=base)
+        c0 = B.run_mypy(root2, os.path.join(base, f"cold0-{tag}"), args, scratch=base)
+        shutil.rmtree(cdir, ignore_errors=True)
+        shutil.rmtree(os.path.join(base, f"cold0-{tag}"), ignore_errors=True)
+        shutil.rmtree(root2, ignore_errors=True)
+        return {"crash_at": crash_at, "fail_ops": [], "killed": bool(r1.get("killed")), "revert": True,
+                "diff": B.diff_outputs(B.canon_output(r2), B.canon_output(c0)), "rechecked_after": B.user_modules(r2.get("rechecked"))}
+
     jobs = []
     for k in range(len(ops) + 1):
         jobs.append((f"k{k}", k, None))
+        if k > 0 and ops[k - 1].startswith("write:") and ".data." in ops[k - 1] and not ops[k - 1].startswith("write:@"):
+            jobs.append((f"r{k}", k, None, True))
     writes = [i for i, o in enumerate(ops) if o.startswith("write:")]
     for i in writes:
         jobs.append((f"f{i}", -1, [i]))
@@ -180,7 +216,7 @@ def main(ctx: Ctx) -> None:
         nstale = len(B.user_modules(res["ref"].get("rechecked")))
         ctx.dist("config", res["config"])
         for fr in res["faults"]:
-            kind = "crash" if fr["crash_at"] >= 0 else ("fail1" if len(fr["fail_ops"]) == 1 else "failN")
+            kind = ("crash+revert" if fr.get("revert") else "crash") if fr["crash_at"] >= 0 else ("fail1" if len(fr["fail_ops"]) == 1 else "failN")
             ctx.case((res["pid"], fr["crash_at"], fr["fail_ops"]), nontrivial=nstale > 0)
             ctx.dist("fault_kind", kind)
             bad = fr["diff"] or fr.get("same_run_diff")
@@ -192,7 +228,7 @@ def main(ctx: Ctx) -> None:
             if fr["crash_at"] >= 0:
                 prev = res["ops"][fr["crash_at"] - 1] if fr["crash_at"] > 0 else "<start>"
                 nxt = res["ops"][fr["crash_at"]] if fr["crash_at"] < len(res["ops"]) else "<end>"
-                where = f"killed between '{prev}' and '{nxt}'"
+                where = f"killed between '{prev}' and '{nxt}'" + (", then the edit was reverted" if fr.get("revert") else "")
             else:
                 where = "failed write(s): " + ", ".join(res["ops"][i] for i in fr["fail_ops"])
             window = "other"
@@ -202,7 +238,8 @@ def main(ctx: Ctx) -> None:
             if fr["fail_ops"] and all(".meta_ex." in res["ops"][i] for i in fr["fail_ops"]):
                 window = "failed-meta_ex-write"
             replay = {"config": res["config"], "files_before": res["files0"], "files_after": res["files1"],
-                      "crash_at": fr["crash_at"], "fail_ops": fr["fail_ops"], "ops": res["ops"], "where": where, "diff": d}
+                      "crash_at": fr["crash_at"], "fail_ops": fr["fail_ops"], "ops": res["ops"], "where": where, "diff": d,
+                      "revert_after_fault": bool(fr.get("revert"))}
             if B.only_once_note_diff(d):
                 ctx.report({"class": "only-once-note-moves"}, f"follow-up run differs from cold only in an only_once note ({where})", replay)
             elif not found:
